@@ -66,12 +66,12 @@ theorem advanceToken_rel (pos : Nat) (rest : List Char) :
       | exact ident_rel _ _ _
       | exact Or.inl rfl
 
-theorem advanceRealLoop_rel : ∀ (fuel pos : Nat) (rest : List Char),
+theorem advanceRealLoop_rel : ∀ (fuel : List Char) (pos : Nat) (rest : List Char),
     FlagRel (advanceRealLoop (some false) fuel pos rest) (advanceRealLoop (some true) fuel pos rest) := by
   intro fuel
   induction fuel with
-  | zero => intro pos rest; exact Or.inl rfl
-  | succ fuel ih =>
+  | nil => intro pos rest; exact advanceToken_rel pos rest
+  | cons _ fuel ih =>
     intro pos rest
     unfold advanceRealLoop
     rcases advanceToken_rel pos rest with h | ⟨⟨o, l, h1⟩, t, p, r, h2, h3⟩
@@ -230,12 +230,12 @@ theorem advanceToken_ns (pos : Nat) (rest : List Char) :
       | exact mkTok_ns rfl _ _ _
       | trivial
 
-theorem advanceRealLoop_ns : ∀ (fuel pos : Nat) (rest : List Char),
+theorem advanceRealLoop_ns : ∀ (fuel : List Char) (pos : Nat) (rest : List Char),
     NoStackTok (advanceRealLoop (some false) fuel pos rest) := by
   intro fuel
   induction fuel with
-  | zero => intro pos rest; trivial
-  | succ fuel ih =>
+  | nil => intro pos rest; exact advanceToken_ns pos rest
+  | cons _ fuel ih =>
     intro pos rest
     unfold advanceRealLoop
     have h := advanceToken_ns pos rest
